@@ -40,7 +40,8 @@ from . import C07_nautilus as N
 
 OBLIGATION_FLOOR = 30
 Z3_TIMEOUT_MS = 40000
-UNITS = ['Ellipsoid', 'Union', 'NautilusBound', 'Mixture']
+UNITS = ['Ellipsoid', 'Union', 'NautilusBound', 'Mixture',
+         'Union.restructure']
 BRANCH_COVERED_FUNCTIONS = ()
 DEAD_BRANCHES = ()
 BQ = 'nautilus.bounds.'
@@ -464,6 +465,17 @@ def build(cx, fe, tier, info, only=None):
     if only in (None, 'Mixture'):
         from .C07_mixture import mixture_units
         mixture_units(cx, fe, info, refinement=True)
+    if only in (None, 'Union.restructure'):
+        # the counters always describe the current geometry: compute / split /
+        # trim (contracts shared with C13) end with an empty cache and zero
+        # counters, so the accepted fraction in log_v is never a leftover of
+        # an earlier set of members
+        from . import C13
+        for u in ('compute', 'trim', 'split'):
+            info3 = dict(functions=[])
+            C13.build(cx, fe, tier, info3, only=u)
+            info['functions'] = info.get('functions', []) + \
+                info3['functions']
     info['assumptions'] = [
         'C08: UnitCubeEllipsoidMixture: the sample is the join of a cube-part '
         'draw and an ellipsoid-part draw (M1), log_v is the ellipsoid volume '
